@@ -29,7 +29,7 @@ ASSUMPTIONS = ["nvmon.ref exact reference for vertex positions (uv within 1e-12 
 FLOORS = {'quick': {'topology': 150, 'vertex-on-surface': 1500, 'quads': 100, 'trim-cells': 1000, 'obj': 60, 'off': 60, 'stl-ascii': 60,
                     'stl-binary': 60, 'container': 30},
           'thorough': {'topology': 1500, 'vertex-on-surface': 15000, 'trim-cells': 10000}}
-MANDATORY_TAGS = ['spacing1', 'spacing>=2', 'spacing>=3', 'spacing:not-dividing', 'rational', 'trim:freeform', 'trim:spline', 'trim:reversed', 'trim:clockwise', 'trim:non-unit-domain', 'trim:added-after-tessellation', 'trim:setter-replaces', 'tessellator:reinstalled-after-edit', 'container', 'container:tessellator-replaced', 'quad:as-surface-tessellator',
+MANDATORY_TAGS = ['spacing1', 'spacing>=2', 'spacing>=3', 'spacing:not-dividing', 'rational', 'trim:freeform', 'trim:spline', 'trim:reversed', 'trim:clockwise', 'trim:non-unit-domain', 'trim:added-after-tessellation', 'trim:setter-replaces', 'tessellator:reinstalled-after-edit', 'container', 'container:tessellator-replaced', 'quad:as-surface-tessellator', 'export:quad-mesh',
                   'quad', 'non-unit-domain', 'export:file']
 TECHNIQUE = ("runtime monitoring: structural + exact-geometric oracle over every tessellation the workload produces (ids, indices, "
              "orientation, exact area cover, edge incidence, Euler characteristic, vertex = surface(uv)), cell-classification oracle "
@@ -408,6 +408,29 @@ def check_plain(case, ctx):
                   abs(vq[0] - dom[1][0]) < 1e-12 and abs(vq[-1] - dom[1][1]) < 1e-9, 'quads/stored-parameters',
                   'quad vertices do not store the %dx%d sampled grid over the domain as their parameters (distinct u: %d, distinct v: %d)'
                   % (nu, nv, len(uq), len(vq)), what='quads')
+    # ---- exports of the quad mesh: they describe THIS mesh (all four corners of every face; STL, a triangle format, two facets per quad) ---
+    if len(QF2) == (nu - 1) * (nv - 1) and rng.random() < 0.6:
+        from geomdl import exchange
+        ctx.tag('export:quad-mesh')
+        nq = len(QF2)
+        obj_txt = exchange.export_obj_str(o2, update_delta=False)
+        fl = [[int(t_) for t_ in l.split()[1:]] for l in obj_txt.split('\n') if l.startswith('f ')]
+        ctx.check(fl == [[i_ + 1 for i_ in q.data] for q in QF2], 'export/quad-obj', 'OBJ export of a quad mesh: face lines %r..., quads %r...'
+                  % (fl[:2], [list(q.data) for q in QF2[:2]]), what='obj')
+        off_txt = [l for l in exchange.export_off_str(o2, update_delta=False).split('\n') if l.strip()]
+        hdr = off_txt[1].split()
+        offf = [[int(t_) for t_ in l.split()] for l in off_txt[2 + len(QV2):]]
+        ctx.check(hdr[:2] == [str(len(QV2)), str(nq)] and offf == [[4] + list(q.data) for q in QF2], 'export/quad-off',
+                  'OFF export of a quad mesh: header %r, first faces %r, quads %r' % (hdr, offf[:2], [list(q.data) for q in QF2[:2]]), what='off')
+        stl_txt = exchange.export_stl_str(o2, binary=False, update_delta=False)
+        facets = stl_txt.split('facet normal')[1:]
+        per = [f_.count('vertex ') for f_ in facets]
+        ctx.check(len(facets) == 2 * nq and all(c_ == 3 for c_ in per), 'export/quad-stl', 'ASCII STL export of %d quads: %d facets with %r vertices each '
+                  '(a quad is two triangular facets)' % (nq, len(facets), sorted(set(per))), what='stl-ascii')
+        stl_bin = exchange.export_stl_str(o2, binary=True, update_delta=False)
+        import struct as _st
+        ctx.check(len(stl_bin) == 84 + 50 * _st.unpack('<i', stl_bin[80:84])[0] and _st.unpack('<i', stl_bin[80:84])[0] == 2 * nq, 'export/quad-stl',
+                  'binary STL export of %d quads: %d bytes, header says %d facets' % (nq, len(stl_bin), _st.unpack('<i', stl_bin[80:84])[0]), what='stl-binary')
     # ---- a tessellation component taken off the surface and installed again later (after an edit) must not bring its old mesh back ------
     if rng.random() < 0.4:
         from geomdl import operations
